@@ -33,6 +33,7 @@ package textwire
 //@   modifies nothing
 
 //@ func EvaluateFile
+//@   call fileContent#0: assert reads-exactly-the-given-path: arg0 == old(absPath)
 //@   call EvaluateString#0: assert file-equals-its-content: arg0 == content && arg1 == data
 //@   ensures result1 != nil ==> result0 == ""
 //@   modifies nothing
@@ -166,6 +167,9 @@ package textwire
 //@   loop 1: invariant result != nil && fresh(result) && forallkey(result, k, result[k] != nil && WFNode(iface(result[k])) && len(result[k].Reserves) == 0)
 //@   call parseProgram#0: bind parsed
 //@   loop 1: continues-only-if every-file-fault-fails-the-load: parsed1 == nil && parsed2 == nil
+//@   call applyLayoutToProgram#0: bind layoutErr
+//@   call applyComponentToProgram#0: bind compErr
+//@   loop 1: continues-only-if every-file-has-its-layout-and-components-resolved: layoutErr == nil && compErr == nil
 
 //@ func NewTemplate
 //@   ensures result1 != nil ==> result0 == nil
